@@ -10,6 +10,8 @@ def run(ctx):
     arity(ctx)
     from ..scen_misc import preset_collection
     preset_collection(ctx)
+    from ..scen_expr import index_overflow
+    index_overflow(ctx)       # an `#index` that does not fit 64 bits is an unparsable expression
     from ..scen_text import output_options
     output_options(ctx)       # output options that do not belong to the chosen output style are rejected
     from ..scen_files import file_sources
